@@ -16,3 +16,41 @@ package envs
 //@   trace DataScopeLocker.Commit as COMMIT
 //@   trace_ensures got == nil : ^LOCK GET SET COMMIT $
 //@   trace_ensures got != nil : ^LOCK GET COMMIT $
+
+// ---- C18: names are validated before anything is stored ----
+//@ type Environments
+//@   field data guarded_by mu
+//@   monitor mu invariant self.data != nil
+
+//@ func (*Environments).validKey [C18]
+//@   modifies $none
+//@   trace MatchString as MATCH bind ok
+//@   at_call MatchString requires $1 == key
+//@   ensures (err == nil) <==> ok
+//@ func (*Environments).valid [C18]
+//@   modifies $none
+//@   trace validKey as VALID bind verr
+//@   loop 1 step verr == nil
+//@   at_call validKey requires $1 == $k
+// Set stores only a valid name; on rejection nothing changes
+//@ func (*Environments).Set [C18]
+//@   requires envs.data != nil
+//@   trace validKey as VALID bind verr
+//@   at_call validKey requires $1 == key
+//@   ensures (err == nil) <==> (verr == nil)
+//@   ensures err != nil ==> mapAt(envs.data, ref(envs.data), 0) == old(mapAt(envs.data, ref(envs.data), 0)) && mapAt(envs.data, ref(envs.data), 1) == old(mapAt(envs.data, ref(envs.data), 1))
+//@   ensures err == nil ==> has(envs.data, key) && envs.data[key] == value
+// SetAll is all-or-nothing: every name is validated before the first store
+//@ func (*Environments).SetAll [C18]
+//@   requires envs.data != nil
+//@   trace valid as VALIDALL bind verr
+//@   at_call valid requires $1 == values
+//@   loop 1 invariant verr == nil && heldW(envs.mu) && envs.data != nil
+//@   ensures err != nil ==> verr != nil && mapAt(envs.data, ref(envs.data), 0) == old(mapAt(envs.data, ref(envs.data), 0)) && mapAt(envs.data, ref(envs.data), 1) == old(mapAt(envs.data, ref(envs.data), 1))
+//@   ensures err == nil ==> verr == nil
+// All returns a copy that shares nothing with the stored map
+//@ func (*Environments).All [C18]
+//@   requires envs.data != nil
+//@   ensures fresh(ref(result)) && ref(result) != ref(envs.data)
+//@   loop 1 invariant heldR(envs.mu) && fresh(ref(result)) && ref(result) != ref(envs.data) && envs.data != nil
+//@   loop 1 step has(result, $k) && result[$k] == $v
